@@ -428,7 +428,12 @@ class MiniEval:
             lo = self.ev(n.slice.lower) if n.slice.lower else None
             hi = self.ev(n.slice.upper) if n.slice.upper else None
             st = self.ev(n.slice.step) if n.slice.step else None
-            return obj[lo:hi:st]
+            try:
+                return obj[lo:hi:st]
+            except TypeError as e:
+                if _plain_value(obj):
+                    raise ModelRaise("TypeError", f"{norm(n)[:40]}: {e}")  # CPython's own answer for its own data types (a set has no slices)
+                raise Unsupported(f"subscript {norm(n)}: {e}")
         idx = self.ev(n.slice)
         try:
             return obj[idx]
@@ -437,6 +442,8 @@ class MiniEval:
         except IndexError as e:
             raise ModelRaise("IndexError", str(e))
         except TypeError as e:
+            if _plain_value(obj) and _plain_value(idx):
+                raise ModelRaise("TypeError", f"{norm(n)[:40]}: {e}")
             raise Unsupported(f"subscript {norm(n)}: {e}")
 
     def ev_Compare(self, n):
